@@ -42,7 +42,7 @@ def search_inflection(failure):
     return None
 
 
-PATH_WORDS = ['.', '..', 'a', 'b.ts', 'x.ts.ts', 'ts', 'c.d']
+PATH_WORDS = ['.', '..', 'a', 'b.ts', 'x.ts.ts', '.h.ts', '.g', 'c.d']
 
 
 def _rel_paths(maxdepth):
@@ -99,6 +99,15 @@ def search_export_history(failure):
                 got = run_history(steps)
                 if got.get('files') != want or any(r != 'ok' for r in got.get('results', [])):
                     return {'request': {'op': 'export_history', 'steps': steps}, 'result': {'files': got.get('files'), 'results': got.get('results'), 'expected_files': want, 'agree': False}, 'kind': 'history'}
+    # types with dependencies: every order of the same calls must leave the same directory (C06), in particular
+    # export(T) before export_all(T) must not stop the dependencies from being exported
+    for h in ([['export', 'C'], ['export_all', 'C']], [['export', 'D'], ['export_all', 'D']], [['export', 'A'], ['export_all', 'C']],
+              [['export_all_to', 'C', 'bindings'], ['export_all', 'D']]):
+        a = run_history(h)
+        b = run_history(list(reversed(h)))
+        if a.get('files') != b.get('files'):
+            return {'request': {'op': 'export_history', 'steps': h}, 'result': {'files': a.get('files'), 'results': a.get('results'),
+                    'expected_files': b.get('files'), 'agree': False, 'note': 'expected_files = same calls in reverse order'}, 'kind': 'history'}
     # repeated export is a no-op
     got = run_history([['export_all', 'A'], ['export_all', 'B'], ['export', 'A'], ['export_all_to', 'B', './bindings']])
     if got.get('files') != want:
@@ -123,7 +132,7 @@ def search_lexical(failure):
     return None
 
 
-SEARCHERS = {'inflection': search_inflection, 'paths': search_paths, 'paths_esm': search_paths, 'export_chain': search_export_history, 'registry': search_export_history, 'lexical': search_lexical}
+SEARCHERS = {'inflection': search_inflection, 'paths': search_paths, 'paths_esm': search_paths, 'export_chain': search_export_history, 'registry': search_export_history, 'lexical': search_lexical, 'recursion': search_export_history}
 
 
 def search(pid, unit, failure, seed):
